@@ -28,6 +28,7 @@ RULE = (
 ASSUMPTIONS = [
     "gcc 12 and clang 14 agreeing silently defines the conforming expansion (orders the standard leaves unspecified are thereby excluded)",
     "tokens are written with separating blanks so that C's longer punctuators cannot form accidentally",
+    "a variadic parameter is never an operand of ## (comma pasting is a GNU extension), unknown identifiers avoid the string-literal prefixes u/U/L, and the #if-truth observation excludes shifts (undefined for the counts expansions produce)",
     "the termination check uses a generous wall-clock bound (20 s for a one-line expansion, retried once with 10x the bound)",
 ]
 
@@ -313,11 +314,15 @@ def case_strategy():
     num = st.sampled_from(["0", "1", "2", "7", "10"])
 
     def body_strategy(name, params, variadic, others, function_like):
-        ident = st.sampled_from(list(params) + others + [name, "u", "v"] + (["__VA_ARGS__"] if variadic == "..." else [variadic[:-3]] if variadic else []))
+        ident = st.sampled_from(list(params) + others + [name, "w", "z"] + (["__VA_ARGS__"] if variadic == "..." else [variadic[:-3]] if variadic else []))
         atom = st.one_of(ident, ident, num)
         units = [atom.map(lambda x: [x]), st.sampled_from(OPS).map(lambda x: [x])]
-        units.append(st.tuples(atom, atom).map(lambda t: [t[0], "##", t[1]]))
-        units.append(st.tuples(atom, atom, atom).map(lambda t: [t[0], "##", t[1], "##", t[2]]))
+        # operands of ## are never the variadic parameter: pasting a token list that contains commas is
+        # GNU comma-paste territory (gcc and clang accept it silently with their own semantics)
+        vname = "__VA_ARGS__" if variadic == "..." else (variadic[:-3] if variadic else None)
+        patom = atom.filter(lambda x: x != vname)
+        units.append(st.tuples(patom, patom).map(lambda t: [t[0], "##", t[1]]))
+        units.append(st.tuples(patom, patom, patom).map(lambda t: [t[0], "##", t[1], "##", t[2]]))
         if function_like and (params or variadic):
             pn = list(params) + (["__VA_ARGS__"] if variadic == "..." else [variadic[:-3]] if variadic else [])
             units.append(st.sampled_from(pn).map(lambda p: ["#", p]))
@@ -347,7 +352,7 @@ def case_strategy():
     def case(draw):
         tab = draw(table())
         names = [m["name"] for m in tab]
-        atom = st.one_of(st.sampled_from(names + ["u", "q"]), num, st.sampled_from(["'x'", '"s t"', "+", "-", "<"]))
+        atom = st.one_of(st.sampled_from(names + ["w", "q"]), num, st.sampled_from(["'x'", '"s t"', "+", "-", "<"]))
         arg = st.one_of(
             st.just([]),
             st.lists(atom, min_size=1, max_size=3),
@@ -388,7 +393,7 @@ def scenario_strategy():
                 tab += [M("X", None, ["Y", n1]), M("Y", None, ["X", n2])]
             else:
                 tab.append(M("X", ["a"], ["a", "+", "X", "(", "a", ")"]))
-            fbody = draw(st.sampled_from([["a"], ["a", "+", "a"], ["(", "a", ")", "u"], ["a", "G", "(", "a", ")"], ["G", "(", "a", ")"]]))
+            fbody = draw(st.sampled_from([["a"], ["a", "+", "a"], ["(", "a", ")", "w"], ["a", "G", "(", "a", ")"], ["G", "(", "a", ")"]]))
             tab.append(M("F", ["a"], fbody))
             tab.append(M("G", ["a"], draw(st.sampled_from([["a"], ["a", "v"], ["F", "(", "a", ")"]]))))
             arg = ["X", "(", n2, ")"] if shape == "fn-self" else ["X"]
@@ -396,7 +401,7 @@ def scenario_strategy():
         elif kind == "plain-and-paste":
             pieces = draw(st.lists(st.sampled_from([["a"], ["a", "##", "0"], ["a", "##", "_T"], ["#", "a"], ["+"], ["G", "(", "a", ")"], ["x", "##", "a"], ["a"]]), min_size=2, max_size=4))
             tab.append(M("F", ["a"], [t for pc in pieces for t in pc]))
-            tab.append(M("G", ["a"], draw(st.sampled_from([["a"], ["a", "*", "2"], ["u"]]))))
+            tab.append(M("G", ["a"], draw(st.sampled_from([["a"], ["a", "*", "2"], ["w"]]))))
             tab.append(M("X", None, draw(st.sampled_from([[n1, n2], [n1], ["Y"], ["G", "(", n1, ")"]]))))
             tab.append(M("Y", None, [n2]))
             arg = draw(st.sampled_from([["X"], ["F", "(", n1, ")"], ["G", "(", n2, ")"], ["X", "Y"], [n1], ["F", "(", n1, ")", "+", n2], ["Y"]]))
@@ -551,7 +556,7 @@ def _rand_shard(seed, n, known):
             f = features(table, inv)
             res.case(key=[[define_line(m) for m in table], inv], nontrivial=nontrivial(table, inv), sample={"table": [define_line(m) for m in table], "line": line_text(inv)}, labels=sorted(f))
             gtoks = cc_tokens.get(id(inv))
-            arith = gtoks is not None and all(re.fullmatch(r"[0-9]+|[A-Za-z_]\w*|\(|\)", t) or t in OPS for t in gtoks)
+            arith = gtoks is not None and all(re.fullmatch(r"[0-9]+|[A-Za-z_]\w*|\(|\)", t) or (t in OPS and t not in ("<<", ">>")) for t in gtoks)
             if j is None and not tdiag and arith:
                 k, v = cbi_truth(table, inv)
                 res.labels["if-truth-compared"] += 1
